@@ -20,6 +20,8 @@ type transport struct {
 	peerGone bool // the peer hung up: EOF once the inbox is drained
 	wbroken  bool // writes fail from now on
 	onWrite  func(msg jsonrpc2.Message) // called under mu for every successful write
+	gate     func(kind string) string   // schedule replay: blocks before a read / write
+	outcome  func(what string)          // schedule replay: reports what the read / write did
 }
 
 func newTransport() *transport {
@@ -68,8 +70,18 @@ func (msgFramer) Writer(w io.Writer) jsonrpc2.Writer { return msgWriter{w.(*tran
 
 type msgReader struct{ t *transport }
 
-func (r msgReader) Read(ctx context.Context) (jsonrpc2.Message, int64, error) {
+func (r msgReader) Read(ctx context.Context) (m jsonrpc2.Message, n int64, err error) {
 	t := r.t
+	if t.gate != nil {
+		t.gate("read")
+		defer func() {
+			if err != nil {
+				t.outcome("read-err")
+			} else {
+				t.outcome("read-msg")
+			}
+		}()
+	}
 	t.mu.Lock()
 	defer t.mu.Unlock()
 	for {
@@ -91,7 +103,17 @@ func (r msgReader) Read(ctx context.Context) (jsonrpc2.Message, int64, error) {
 type msgWriter struct{ t *transport }
 
 // Write mimics headerWriter.Write: a cancelled context wins over everything else.
-func (w msgWriter) Write(ctx context.Context, msg jsonrpc2.Message) (int64, error) {
+func (w msgWriter) Write(ctx context.Context, msg jsonrpc2.Message) (n int64, err error) {
+	if w.t.gate != nil {
+		w.t.gate("write")
+		defer func() {
+			if err != nil {
+				w.t.outcome("write-fail")
+			} else {
+				w.t.outcome("write-ok")
+			}
+		}()
+	}
 	select {
 	case <-ctx.Done():
 		return 0, ctx.Err()
